@@ -299,7 +299,7 @@ class BinaryNode(node.Node):
             _new_children (List[Optional[Self]]): child node
         """
         self._BaseNode__check_children_type(_new_children)  # type: ignore
-        new_children = self.__check_children_type(_new_children)
+        new_children = list(self.__check_children_type(_new_children))
         if ASSERTIONS:
             self.__check_children_loop(new_children)
 
